@@ -98,6 +98,8 @@ func c14history(v *verifrt.T, kinds []int) {
 	if kinds != nil {
 		n = len(kinds)
 	}
+	skew := int64(v.U16("skew")) % 3600 // B's clock is this many seconds behind A's
+	skew *= 1000000000
 	banned := false                // what A has acknowledged last
 	var bAdd, bDel int64           // what has been delivered to B
 	delivered := 0
@@ -127,8 +129,15 @@ func c14history(v *verifrt.T, kinds []int) {
 		case 3: // deliver the oldest undelivered broadcast to B (state-level merge; codec outside)
 			if delivered < len(ga.sent) {
 				p := ga.sent[delivered]
+				sentTimes := p.VerifBanTimes() // what A put on the wire
 				delivered++
-				t := p.VerifBanTimes()
+				// the payload crosses the wire (set codecs) and is decoded on B, whose clock
+				// may be behind A's by up to an hour
+				crdt.Now = func() int64 { return c14clock - skew }
+				p, err := p.VerifHop()
+				crdt.Now = func() int64 { return c14clock }
+				v.Assert(err == nil, "C14.payload-survives-the-hop")
+				t := sentTimes
 				if t[0] > bAdd {
 					bAdd = t[0]
 				}
@@ -143,5 +152,10 @@ func c14history(v *verifrt.T, kinds []int) {
 	}
 	v.Reach("history-done")
 	v.Assert(a.Contains(&ban) == banned, "C14.final-use-on-A")
+	// a ban in force stays in force: its entry is not stored with an expiry (only tombstones
+	// of lifted bans are, so that they can be forgotten after six hours)
+	if banned {
+		v.Assert(!a.state.VerifBanExpires(v.Symbolic()), "C14.ban-in-force-is-stored-without-expiry")
+	}
 	v.Observe("banned", uint64(verifrt.B2U(a.Contains(&ban))))
 }
